@@ -264,7 +264,9 @@ where
             return Err(PlanningError::UnsampledStateSpace);
         }
 
-        let start_state = &pd.start_states[0];
+        let Some(start_state) = pd.start_states.first() else {
+            return Err(PlanningError::InvalidStartState);
+        };
         if !vc.is_valid(start_state) {
             return Err(PlanningError::InvalidStartState);
         }
